@@ -47,6 +47,13 @@ type Dyn struct {
 	// Renamed: the generated variant's levels carry new names (renamedPrefix) and its default
 	// desired level is one of them
 	Renamed bool `json:"renamed,omitempty"`
+	// GenStyle / GenMask: other styles of the generated variant ("empty-onx": step sections defined
+	// as empty lists over a base with steps) and the sections it defines (0 = all but driver-type)
+	GenStyle string `json:"gen_style,omitempty"`
+	GenMask  int    `json:"gen_mask,omitempty"`
+	// Blank: b0 | b1 | b2 - the device prints every prompt with 0, 1, 2 trailing blanks wherever the
+	// level's own pattern accepts that spelling ("" = the canonical spelling)
+	Blank string `json:"blank,omitempty"`
 }
 
 func (s Dyn) label() string {
@@ -55,6 +62,8 @@ func (s Dyn) label() string {
 		l += "/generated"
 		if s.Renamed {
 			l += "-renamed"
+		} else if s.GenStyle != "" {
+			l += "-" + s.GenStyle
 		}
 	} else if s.Variant != "" {
 		l += "/" + s.Variant
@@ -149,7 +158,14 @@ func (s Dyn) source() (b []byte, arg interface{}, prompts map[string]string, res
 				}
 				prompts = rp
 			}
-			gb, err := genVariantDef(ab, allButDriverType, style)
+			mask := allButDriverType
+			if s.GenStyle != "" && !s.Renamed {
+				style = s.GenStyle
+			}
+			if s.GenMask != 0 {
+				mask = s.GenMask
+			}
+			gb, err := genVariantDef(ab, mask, style)
 			if err != nil {
 				v := mon.Result{Verdict: mon.Inconclusive, Detail: "harness: cannot generate variant: " + err.Error()}
 				return nil, nil, nil, &v
@@ -211,6 +227,9 @@ func RunDyn(s Dyn) mon.Result {
 		prompts = familyPrompts(s.Platform, s.Host, s.AltLevel, s.AltIdx)
 	}
 	ref, _, err := parseDef(b)
+	if err == nil && s.Blank != "" {
+		prompts = blankSpellings(ref.Default, prompts, int(s.Blank[1]-'0'))
+	}
 	if err != nil {
 		return viol("c17/definition-malformed:"+label, "definition does not parse: %v", err)
 	}
@@ -285,8 +304,8 @@ func RunDyn(s Dyn) mon.Result {
 			return *v
 		}
 	}
-	if s.Host != "" {
-		if v := checkFamilyPrompts(s.Platform, d.PrivilegeLevels, d.Channel.PromptPattern, prompts, fmt.Sprintf("host name %q", s.Host)); v != nil {
+	if s.Host != "" || s.Blank != "" {
+		if v := checkFamilyPrompts(s.Platform, d.PrivilegeLevels, d.Channel.PromptPattern, prompts, fmt.Sprintf("host name %q, trailing blanks %q", s.Host, s.Blank)); v != nil {
 			return *v
 		}
 	}
@@ -574,6 +593,18 @@ func drive(s Dyn, label string, eff *refPlatform, effDefault string, prompts map
 	obs["device_password_rejections"] += int64(st.rejected)
 	if s.UserDefault != "" {
 		obs["sessions_with_user_default_level"]++
+	}
+	if s.Blank != "" {
+		obs["sessions_with_trailing_blanks"]++
+		for _, p := range prompts {
+			if n := len(p) - len(strings.TrimRight(p, " ")); n > 0 {
+				obs["device_prompts_with_trailing_blanks"]++
+			}
+		}
+		tags = append(tags, "blanks="+s.Platform+":"+s.Blank)
+	}
+	if s.GenStyle == "empty-onx" {
+		obs["sessions_on_variant_with_empty_step_sections"]++
 	}
 	if s.Host != "" {
 		obs["sessions_with_family_host_name"]++
